@@ -357,11 +357,11 @@ func childKeyCalls(c *Ctx, fn *ssa.Function) []*ssa.Call {
 			return
 		}
 		cc := &call.Call
-		if cc.IsInvoke() && cc.Method.Name() == "cacheKey" && typeIs(cc.Value.Type(), pkgRoot, "Expression") {
+		if cc.IsInvoke() && cc.Method.Name() == keyName && typeIs(cc.Value.Type(), pkgRoot, "Expression") {
 			out = append(out, call)
 			return
 		}
-		if f := calleeFunc(cc); f != nil && f.Name() == "cacheKey" && f.Signature.Recv() != nil && c.w.inModule(f) {
+		if f := calleeFunc(cc); f != nil && f.Name() == keyName && f.Signature.Recv() != nil && c.w.inModule(f) {
 			out = append(out, call)
 		}
 	})
@@ -406,8 +406,8 @@ func c03Keyhash(c *Ctx) {
 			continue
 		}
 		n++
-		name := "(*" + T.Obj().Name() + ").cacheKey"
-		fn := c.a.methodOf(T, "cacheKey")
+		name := "(*" + T.Obj().Name() + ")." + nameOr(c.a.KeyName, "cacheKey")
+		fn := c.a.methodOf(T, c.a.KeyName)
 		if fn == nil {
 			c.r.undecided(rule, name, "method not found")
 			continue
@@ -522,7 +522,7 @@ func ownKeyCall(c *Ctx, fn *ssa.Function, v ssa.Value) bool {
 		return false
 	}
 	f := calleeFunc(&call.Call)
-	if f == nil || f.Name() != "cacheKey" || f.Signature.Recv() == nil || fn.Signature.Recv() == nil {
+	if f == nil || f.Name() != keyName || f.Signature.Recv() == nil || fn.Signature.Recv() == nil {
 		return false
 	}
 	if !types.Identical(f.Signature.Recv().Type(), fn.Signature.Recv().Type()) {
@@ -544,8 +544,8 @@ func cacheCalls(fn *ssa.Function, method string) []*ssa.Call {
 func c03Keypair(c *Ctx) {
 	const rule = "C03.keypair"
 	for _, T := range c.a.ExprImpls {
-		name := "(*" + T.Obj().Name() + ").eval"
-		fn := c.a.methodOf(T, "eval")
+		name := "(*" + T.Obj().Name() + ")." + nameOr(c.a.EvalName, "eval")
+		fn := c.a.methodOf(T, c.a.EvalName)
 		if fn == nil {
 			c.r.undecided(rule, name, "method not found")
 			continue
@@ -752,15 +752,15 @@ func c03KeyOperands(c *Ctx) {
 		if listF == nil {
 			continue
 		}
-		name := "(*" + T.Obj().Name() + ").cacheKey"
-		fn := c.a.methodOf(T, "cacheKey")
+		name := "(*" + T.Obj().Name() + ")." + nameOr(c.a.KeyName, "cacheKey")
+		fn := c.a.methodOf(T, c.a.KeyName)
 		if fn == nil {
 			c.r.undecided(rule, name, "method not found")
 			continue
 		}
 		isSrc := func(v ssa.Value) bool { return path(v).lastField() == listF }
 		keyCall := func(ec *ssa.Call) (ssa.Value, bool) {
-			if ec.Call.IsInvoke() && ec.Call.Method.Name() == "cacheKey" {
+			if ec.Call.IsInvoke() && ec.Call.Method.Name() == keyName {
 				return ec.Call.Value, true
 			}
 			return nil, false
